@@ -11,7 +11,7 @@ COMMON_TRUSTED = [
 LOCKX = [dict(exe="lockx", args=["/repo", "/verif/lean/Avfs/Generated/Locks.lean"])]
 CLEAN = "mkdir,mkdirall,writefile,readfile,stat,lstat,readdir,chmod,truncate,open,fileop,chtimes,chown"
 RACE_CFG = [("memidm", "", 2), ("memfs", CLEAN, 3), ("memfs", "mkdir,remove", 2), ("orefafs", "mkdir,remove", 2), ("memfs", "link,remove", 2),
-            ("memfs", "remove,writefile,stat", 2), ("orefafs", "remove,writefile,stat", 2)]
+            ("memfs", "remove,writefile,stat", 2), ("orefafs", "remove,writefile,stat", 2), ("memfs", "symlink,lstat,lchown,readlink,stat,chown", 2)]
 CONC_TRUST = ["translator harness/cmd/lockx (go/ast; intra-procedural must-held lockset: sequential flow, intersection at joins, defers; aliases through := and type assertions; fails closed on constructs it does not know); that the extracted facts over-approximate the real accesses is trusted",
               "Go memory model DRF-SC (reasoning at lock granularity)", "the race detector and free-running schedules are a search engine only"]
 FACTX = [dict(exe="factx", args=["/repo", "/verif/lean/Avfs/Generated/Wrap.lean"])]
@@ -94,10 +94,10 @@ PROPS = {
     ),
     "C17": dict(
         props_files=["Avfs/Props/C17.lean"],
-        parts=[dict(name="ostype", tags="verif,avfs_setostype"), dict(name="ostype")],
-        trusted=["oracle for the Windows emulation: the Linux-typed emulation of the same file system (itself compared with the kernel by C01), as the property says", "the model of SetOSType is hand-written (Avfs/OSType.lean), tied by the construction matrix run from two harness binaries (tag on / off)"],
+        parts=[dict(name="ostype", tags="verif,avfs_setostype"), dict(name="ostype"), dict(name="volumes", tags="verif,avfs_setostype")],
+        trusted=["oracle for the Windows emulation: the Linux-typed emulation of the same file system (itself compared with the kernel by C01), as the property says", "the model of SetOSType is hand-written (Avfs/OSType.lean), tied by the construction matrix run from two harness binaries (tag on / off)", "the volume model (Avfs/Volumes.lean: volume name ↦ names in its root directory) is hand-written and tied by corr volumes (every sequence of up to 3/4 volume calls + random ones, against a Windows-typed MemFS)"],
         assumptions=["host is Linux", "portable histories work below one common directory (the two OS types create different system directories)"],
-        not_yet_proved=["os_agreement as a theorem (needs the Windows branches in the Lean file-system models); volume management sequences (VolumeAdd/VolumeDelete/VolumeList) are not exercised yet"],
+        not_yet_proved=["os_agreement as a theorem (needs the Windows branches in the Lean file-system models); the volume theorems (C17_add_empty, C17_delete_gone, C17_delete_add_empty, C17_others_untouched, C17_list_iff, C17_touch) see a volume as the set of names in its root directory, not as a tree"],
     ),
     "C02": dict(
         props_files=["Avfs/Props/C02.lean"],
@@ -151,8 +151,9 @@ PROPS = {
     "C15": dict(
         props_files=["Avfs/Props/C15.lean"],
         parts=[dict(name="idm")],
-        trusted=["modelled, not verified: Go maps as association lists; sync.RWMutex (each MemIdm method body is one critical section; see C06/C08 for the locking)"],
-        assumptions=["ids stay far below 2^63 (Int model)", "sequential histories; the concurrent part of C15 is carried by the lock-skeleton obligations shared with C06/C08"],
+        lin=[("memidm", "proved", 30000), ("memidm", "known", 8000)],
+        trusted=["modelled, not verified: Go maps as association lists; sync.RWMutex (mutual exclusion of writers, as in C06/C08)", "the lock-fact extractor harness/cmd/lockx (go/ast) for the section shape of the MemIdm methods"],
+        assumptions=["ids stay far below 2^63 (Int model)", "the sequential theorems carry over to concurrent callers through C15_single_section + C15_atomic_sections_serial (every method but AddUser is one critical section); AddUser is two sections: recorded finding"],
         not_yet_proved=[],
     ),
 }
